@@ -245,6 +245,15 @@ func (s *slowVerifier) Verify(message, signature []byte, hash [32]byte, address 
 	return wallet.NewVerifier().Verify(message, signature, hash, address)
 }
 
+// SlowAlways marks a digest: every verification of it, the first included, sleeps SlowRepeat.
+func (w *World) SlowAlways(h [32]byte) {
+	for _, v := range w.slowVerifiers {
+		v.mu.Lock()
+		v.seen[h] = false
+		v.mu.Unlock()
+	}
+}
+
 // SlowAfterFirst marks a digest: the injected verifier of every node created with SlowRepeat > 0 answers its first
 // verification at once and sleeps SlowRepeat on every later one.
 func (w *World) SlowAfterFirst(h [32]byte) {
@@ -258,7 +267,7 @@ func (w *World) SlowAfterFirst(h [32]byte) {
 func NewWorld(r *rand.Rand, res *core.Result, report []string, oracles int, desc string) *World {
 	w := &World{R: r, Res: res, Report: map[string]bool{}, Oracles: oracles, Keys: map[string]ed25519.PublicKey{},
 		Hist: NewHistory(), Desc: desc, Trusted: map[string]bool{}, vcache: map[H]string{}, Ctx: context.Background(),
-		clock: time.Now().Add(-time.Hour), Stats: map[string]int{}}
+		clock: time.Now().Add(-time.Hour).Truncate(time.Microsecond), Stats: map[string]int{}}
 	for _, p := range report {
 		w.Report[p] = true
 	}
